@@ -64,6 +64,14 @@ TRUSTED_EXTRA = [
     "harness-side exact dyadic arithmetic (Python ints) is the search oracle; it is cross-checked for equality against the Lean evaluation",
 ]
 
+LEVEL = "proof"
+EXPLANATION = ("PARTIAL. Proved (Lean): exact-arithmetic identities of the interpolation specification — data reproduced with n+1 points and "
+               "while growing, normal equations for regression, Lagrange delta / sum-to-one, shift_base invariance of model values and (g,H), "
+               "full-rank completion — under the defining equations of the LAPACK results; and for every operation sequence the soundness of "
+               "factorisation_current (ghost version and geometry forms; pinned add_new_sample refuted). Not proved: LAPACK exactness and "
+               "every conditioning-proportional rounding bound — observed on the real Model with tolerance 64(n+1) eps cond(W) scale "
+               "(measured max < 1 x eps cond scale).")
+
 TOL_C = 64.0
 COND_MAX = 1e10
 SUITE_CORR = 1601
@@ -524,6 +532,44 @@ class Engine:
             self.m_line("mfact", "lagrange")
         self.count("op_lagrange")
 
+    def op_probe_unfactorised(self):
+        """Lagrange function through the fallback path of solve_geom_system (no current factorisation)"""
+        md, cfg = self.md, self.cfg
+        if md.factorisation_current or md.npt() < 2:
+            return
+        p, n = md.npt(), cfg.n
+        k = int(self.rng.integers(0, p))
+        self.count("op_probe_unfactorised")
+        self.hist.append(("lagrange_unfactorised", k))
+        try:
+            c, g = md.lagrange_gradient(k=k, factorise_first=False)
+        except TypeError as e:
+            self.fail("C16:solve-without-factorisation:TypeError",
+                      "lagrange_gradient(k=%d, factorise_first=False) without a current factorisation raised TypeError: %s" % (k, e))
+            return
+        except (np.linalg.LinAlgError, ValueError):
+            self.count("probe_unfactorised_linalg_error")
+            return
+        if md.factorisation_current:
+            self.fail("C16:stale-factorisation:lagrange_gradient(factorise_first=False)", "flag set by a call that must not factorise")
+        if p > n + 1 or not (np.isfinite(c) and np.all(np.isfinite(g))):
+            return
+        W = md.interpolation_matrix()[0]
+        kappa = ic.cond2(W)
+        if not np.isfinite(kappa) or kappa > COND_MAX:
+            return
+        xopt = md.xopt()
+        Y = np.array([md.xpt(t) for t in range(p)])
+        dg = np.concatenate([[c], g]).reshape(-1, 1)
+        scaleL = max(1.0, float(abs(c) + np.max(np.abs(Y - xopt).dot(np.abs(g)))))
+        worst = 0.0
+        for t in range(p):
+            L = float(ic.exact_lagrange(xopt, dg, Y[t]).to_float()[0])
+            worst = max(worst, abs(L - (1.0 if t == k else 0.0)))
+        self.stat("lagrange_unfactorised_err_over_eps_cond_scale", worst / (EPS * kappa * scaleL))
+        if worst > TOL_C * (n + 1) * EPS * kappa * scaleL:
+            self.fail("C16:lagrange-delta:unfactorised", "fallback path: max_t|L_k(y_t) - delta_kt| = %.3e (cond(W)=%.2e)" % (worst, kappa))
+
     def op_factorise(self):
         md = self.md
         was = md.factorisation_current
@@ -552,10 +598,12 @@ class Engine:
                     self.op_shift()
                 elif u < 0.86:
                     self.op_fit()
-                elif u < 0.96:
+                elif u < 0.95:
                     self.op_lagrange()
-                else:
+                elif u < 0.98:
                     self.op_factorise()
+                else:
+                    self.op_probe_unfactorised()
             except Failure:
                 break
             except (np.linalg.LinAlgError, ValueError) as e:
@@ -646,7 +694,7 @@ def eng_has_factorised(exp):
 
 def correspondence(ctx):
     dfols = core.import_dfols()
-    nseq = ctx.scale(110, 900)
+    nseq = ctx.scale(160, 900)
     length = ctx.scale(40, 120)
     stats, counts = {}, {}
     engines = []
@@ -705,8 +753,8 @@ def search(ctx):
     dfols = core.import_dfols()
     boost = getattr(ctx, "boost", 1)
     stats, counts = {}, {}
-    for suite, mfr, nseq, length in ((SUITE_SEARCH, False, ctx.scale(260, 4000) * boost, ctx.scale(60, 150)),
-                                     (SUITE_MFR, True, ctx.scale(120, 1500) * boost, ctx.scale(30, 60))):
+    for suite, mfr, nseq, length in ((SUITE_SEARCH, False, ctx.scale(400, 4000) * boost, ctx.scale(60, 150)),
+                                     (SUITE_MFR, True, ctx.scale(160, 1500) * boost, ctx.scale(30, 60))):
         for i in range(nseq):
             seed = [ctx.seed, suite, i]
             cfg, eng = run_search_seq(dfols, seed, length, mfr)
